@@ -186,6 +186,14 @@ func TestVerifC04(t *testing.T) {
 				for rep := 0; rep < 4; rep++ {
 					obj := &SM3{h: h, nx: 0, len: 64 * blocks}
 					var rest []byte
+					if rep >= 2 {
+						// and with bytes already buffered (mid-block state)
+						nx := rng.Pick([]int{1, 55, 56, 63})
+						rest = rng.Bytes(nx)
+						copy(obj.x[:], rest)
+						obj.nx = nx
+						obj.len += uint64(nx)
+					}
 					var hist []string
 					bad := false
 					nops := 1 + rng.Intn(5)
